@@ -27,7 +27,7 @@ fn cmp(acc: &mut Acc, got: &Envelope, want: &M, route: &str, case_id: impl Fn() 
 
 pub fn run(ctx: &Ctx) -> i32 {
     let th = ctx.tier.thorough();
-    let w = if th { 8 } else { 6 };
+    let w = if th { 9 } else { 7 };
     let trees = families::plain(w);
     let key = bind::key0();
     // (a) every tree x every route
@@ -105,7 +105,7 @@ pub fn run(ctx: &Ctx) -> i32 {
     acc = acc.merge(native_leaves());
 
     // (d) every obscuration pattern of each tree (all subsets of its digests, three actions, removing)
-    let wd = if th { 6 } else { 5 };
+    let wd = if th { 7 } else { 6 };
     let d = families::plain(wd).par_iter().enumerate().with_max_len(1).map(|(ti, m)| {
         let mut acc = Acc::new();
         let e = bind::build(m, 0);
@@ -128,7 +128,7 @@ pub fn run(ctx: &Ctx) -> i32 {
 
     // (c) every state of the operation-sequence exploration: cached digests equal digests recomputed from the children
     let depth = if th { 4 } else { 3 };
-    let mut roots = families::plain(3); roots.extend(families::decode_only());
+    let mut roots = families::plain(if th { 4 } else { 3 }); roots.extend(families::decode_only());
     let roots = explore::roots_from(&roots);
     let ops_ = explore::ops_full();
     let (st, bacc) = explore::explore(&roots, &ops_, depth,
